@@ -22,7 +22,8 @@ META = {
              "arrays; in-situ calls from cube walks and set updates. Non-trivial: both operands non-empty and neither "
              "contained in the other (pairs), >=2 non-empty inputs sharing an element (multi-way); distinct by content"),
     "require": {"quick": ["kernel_calls", "wrapper_calls", "many_calls", "insitu_kernel_calls", "many:chain",
-                          "presentation:strided", "presentation:view_in_buffer",
+                          "presentation:strided", "presentation:view_in_buffer", "class:lopsided", "class:lopsided>32768",
+                          "class:views_of_one_buffer", "many:more_than_16_arrays",
                           "class:left_empty", "class:right_empty", "class:touching", "class:nested",
                           "class:interleaved", "class:identical"],
                 "thorough": ["kernel_calls", "wrapper_calls", "many_calls", "insitu_kernel_calls", "long_pairs"]},
@@ -243,6 +244,14 @@ def run_shard(ctx):
                 b = [x for l, x in K.presentations(b.tolist(), rng) if l == pb][0]
                 ctx.count("presentation:%s" % pa)
                 ctx.count("presentation:%s" % pb)
+            if n % 4 == 2:
+                a, b = K.lopsided_pair(rng, long_len=None if (s.get("long") or n % 16 == 2) else K.pickone(rng, K.LADDER[:9]))
+                ctx.count("class:lopsided")
+                if max(len(a), len(b)) > 32768:
+                    ctx.count("class:lopsided>32768")
+            elif n % 25 == 7:
+                a, b = K.shared_base_views(rng)
+                ctx.count("class:views_of_one_buffer")
             run_pair(ctx, so, a, b, "random")
             if s.get("long"):
                 ctx.count("long_pairs")
@@ -258,6 +267,15 @@ def run_shard(ctx):
             k = int(rng.integers(0, 6))
             uni = int(K.pickone(rng, [6, 12, 40, 2 ** 32]))
             arrays = []
+            if n % 50 == 13:
+                # many arrays (pairwise-reduction shortcuts): counts around powers of two
+                k = int(K.pickone(rng, [17, 20, 31, 33, 64, 100]))
+                arrays = [numpy.unique(rng.integers(0, 5000, size=int(rng.integers(0, 6)))).astype(U32) for _ in range(k)]
+                arrays[-1] = numpy.unique(numpy.concatenate([arrays[-1], numpy.array([6001 + n], dtype=U32)]))
+                arrays[0] = numpy.unique(numpy.concatenate([arrays[0], numpy.array([7001 + n], dtype=U32)]))
+                ctx.count("many:more_than_16_arrays")
+                run_many(ctx, so, arrays)
+                continue
             if n % 5 == 4:
                 # an ordered chain of arrays that are pairwise disjoint or touch at one element
                 # (and permutations of it): the shapes a "just concatenate" shortcut would target
